@@ -226,8 +226,27 @@ def _conv_wrappers():
                 raise Unsupported("xor_bytes of different lengths on symbolic bytes")
             return SBytes([(x ^ y) if isinstance(x, int) and isinstance(y, int) else _t8(x) ^ _t8(y) for x, y in zip(a.b, b.b)])
         return U.xor_bytes(left, right)
+    def render_bytes(source, *args):
+        """passlib.utils.render_bytes: %s-formatting of bytes through latin-1; with symbolic operands the pieces are
+        concatenated as bytes (only %s is used with them)"""
+        if not any(isinstance(a, (SBytes, SStr)) for a in args):
+            return U.render_bytes(source, *args)
+        src = source.decode("latin-1") if isinstance(source, bytes) else source
+        pieces = src.split("%s")
+        if len(pieces) != len(args) + 1 or any("%" in x for x in pieces):
+            raise Unsupported("render_bytes format %r with symbolic operands" % (source,))
+        out = SBytes(list(pieces[0].encode("latin-1")))
+        for a, lit in zip(args, pieces[1:]):
+            if isinstance(a, (bytes, SBytes)):
+                out = out + SBytes.lift(a)
+            elif isinstance(a, (str, SStr)):
+                out = out + SBytes.lift(SStr.lift(a).encode("latin-1"))
+            else:
+                out = out + SBytes(list(str(a).encode("latin-1")))
+            out = out + SBytes(list(lit.encode("latin-1")))
+        return out
     out = {U.to_unicode: to_unicode, U.to_bytes: to_bytes, U.to_native_str: to_native_str, U.join_unicode: join_unicode,
-           U.join_bytes: join_bytes, U.consteq: consteq, U.xor_bytes: xor_bytes}
+           U.join_bytes: join_bytes, U.consteq: consteq, U.xor_bytes: xor_bytes, U.render_bytes: render_bytes}
     for nm, f in (("bascii_to_str", bascii_to_str), ("str_to_bascii", str_to_bascii)):
         if hasattr(K, nm):
             out[getattr(K, nm)] = f
@@ -357,6 +376,12 @@ def env_triples(H):
                     out.append(instrument_attr(k, attr, opts=("fmt", "fstr", "idx", "join", "in")))
                 except Exception:
                     pass
+    # ident_aliases[ident] with a symbolic ident: dictionary look-up through the index hook
+    if "_norm_ident" in vars(uh.HasManyIdents) and issubclass(base, uh.HasManyIdents):
+        try:
+            out.append(instrument_attr(uh.HasManyIdents, "_norm_ident", opts=("idx", "fstr", "in")))
+        except Exception:
+            pass
     # binary.py's own C-level codecs
     b2a, a2b, Err = _b64_model()
     out += [(B, "_BinAsciiError", Err)]
